@@ -215,10 +215,19 @@ type vC14Verdict struct {
 	saw64     bool
 	maxLen    uint64 // largest declared payload length among the headers parsed
 	sawRsv1   bool   // some parsed header had RSV1 set
+	compressed bool  // a compressed message (RSV1 alone on a first data frame, negotiated) was accepted
 	consumed  int // bytes of whole frames processed
 }
 
 func vC14Spec(server bool, limit int64, wire []byte) vC14Verdict {
+	return vC14SpecNeg(false, server, limit, wire)
+}
+
+// negotiated: permessage-deflate was negotiated in the handshake (RFC 7692 6): RSV1 is then legal on
+// the first frame of a data message and nowhere else -- not together with RSV2 / RSV3, not on a
+// continuation frame, not on a control frame.  The payload of such a compressed message is not
+// inflated here: v.compressed reports that one was accepted.
+func vC14SpecNeg(negotiated bool, server bool, limit int64, wire []byte) vC14Verdict {
 	var v vC14Verdict
 	v.code = -1
 	maxLen := uint64(1<<63 - 1)
@@ -254,6 +263,12 @@ func vC14Spec(server bool, limit int64, wire []byte) vC14Verdict {
 		}
 		if h.rsv&4 != 0 {
 			v.sawRsv1 = true
+		}
+		if negotiated && (h.op == 1 || h.op == 2) && h.rsv&4 != 0 {
+			h.rsv &^= 4 // per-message compressed
+			if h.rsv == 0 {
+				v.compressed = true
+			}
 		}
 		if h.rsv != 0 || h.masked != server {
 			v.outcome = vC14OViolation
@@ -1035,13 +1050,18 @@ func vC14HandshakeSweep(r *vRng, nRandom int, emit func(c vSx)) {
 				cl := mk(8, true, 0, []byte{3, 232})
 				emit(vL(vZ(vC14Fixed()), vBool(server), vZ(0), vZ(0), vB(append(append(append([]byte{}, ping...), msg...), cl...)), vL(), vL(), hs))
 				for rsv := 1; rsv <= 7; rsv++ {
-					if negotiated && rsv&4 != 0 {
-						continue
-					}
-					bad := [][]byte{mk(1, true, rsv, []byte("hi")), mk(2, false, rsv, nil), mk(9, true, rsv, []byte("x")),
-						mk(10, true, rsv, nil), mk(8, true, rsv, []byte{3, 232}),
+					// RSV1 alone on a first data frame of a negotiated connection starts a compressed
+					// message (C13's ground): excluded.  RSV1 together with RSV2 / RSV3 there, and RSV1
+					// alone or combined on continuation, ping, pong and close frames, are violations.
+					bad := [][]byte{mk(9, true, rsv, []byte("x")), mk(9, true, rsv, nil),
+						mk(10, true, rsv, nil), mk(10, true, rsv, []byte("y")), mk(8, true, rsv, []byte{3, 232}), mk(8, true, rsv, nil),
 						append(append([]byte{}, frag...), mk(0, true, rsv, []byte("c"))...),
-						append(append([]byte{}, frag...), mk(9, true, rsv, nil)...)}
+						append(append([]byte{}, frag...), mk(0, false, rsv, nil)...),
+						append(append([]byte{}, frag...), mk(9, true, rsv, nil)...),
+						append(append([]byte{}, frag...), mk(8, true, rsv, []byte{3, 232})...)}
+					if !(negotiated && rsv == 4) {
+						bad = append(bad, mk(1, true, rsv, []byte("hi")), mk(2, false, rsv, nil), mk(2, true, rsv, []byte{1, 2, 3}), mk(1, false, rsv, []byte("a")))
+					}
 					for _, b := range bad {
 						emit(vL(vZ(vC14Fixed()), vBool(server), vZ(0), vZ(0), vB(b), vL(), vL(), hs))
 						emit(vL(vZ(vC14Fixed()), vBool(server), vZ(0), vZ(0), vB(append(append(append([]byte{}, msg...), ping...), b...)), vL(), vL(), hs))
@@ -1056,8 +1076,8 @@ func vC14HandshakeSweep(r *vRng, nRandom int, emit func(c vSx)) {
 						if (c.l[1].int() == 1) != server {
 							continue
 						}
-						if negotiated && vC14Spec(server, kc.limit, kc.wire).sawRsv1 {
-							continue
+						if negotiated && vC14SpecNeg(true, server, kc.limit, kc.wire).compressed {
+							continue // would need a deflate stream
 						}
 						emit(vL(c.l[0], c.l[1], c.l[2], vZ(0), c.l[4], vL(), vL(), hs))
 						break
@@ -1856,7 +1876,8 @@ func TestVerifC14(t *testing.T) {
 			return
 		}
 		run := vC14Exec(kc)
-		v := vC14Spec(kc.server, kc.limit, kc.wire)
+		negotiated := kc.isHS && len(kc.hs) == 3 && kc.hs[1] == 1 && kc.hs[2] == 1
+		v := vC14SpecNeg(negotiated, kc.server, kc.limit, kc.wire)
 		evs, out := vC14SpecSx(v)
 		obs := run.obs
 		if !run.panicked {
